@@ -15,7 +15,8 @@ EXTENDS Integers, Sequences, FiniteSets
 \* ---- the kind alphabet (strings so that traces/cases are plain JSON) ----
 TextKinds      == {"T", "t", "W"}            \* long text, short text, whitespace
 InlineKinds    == {"INL", "A", "AJ", "FONT"} \* inline containers; AJ = javascript: anchor
-BlockKinds     == {"P", "DIV", "H", "MRK"}   \* flushing block containers; MRK = a div whose class/id/role marks it unlikely content
+BlockKinds     == {"P", "DIV", "H", "MRK", "BODY"}   \* flushing block containers; MRK = a div whose class/id/role marks it
+                                              \* unlikely content; BODY = html / body (never dropped as empty)
 NestKinds      == {"UL", "OL", "LI", "BQ", "PRE"}   \* CanBeNested: emit Tag start/end
 HiddenKinds    == {"HID", "HIN"}             \* hidden block / hidden inline container
 SkipSilent     == {"SKS"}                    \* script, style, noscript, svg, unknown iframe, link
